@@ -122,7 +122,11 @@ def create_import_function(report: Report, sandbox):
         elif report.submission and filename in report.submission.files:
             if module_name not in sys.modules:
                 contents = report.submission.files[filename]
-                return sandbox._import(contents, module_name, filename, sandbox.threaded)
+                module = sandbox._import(contents, module_name, filename, sandbox.threaded)
+                # Like the real import system: a module's code runs once, later
+                # imports get the same module (the module table is restored after the execution)
+                sys.modules[module_name] = module
+                return module
         return ORIGINAL_BUILTINS['__import__'](module_name, globals, locals, fromlist, level)
     return _restricted_import
 
